@@ -725,7 +725,7 @@ class Grid2D(Structure):
 
         This is used to interface with Python libraries that require the grid in (x,y) format.
         """
-        return self.with_new_array(np.fliplr(self.array))
+        return self.with_new_array(np.flip(self.array, axis=-1))
 
     @property
     def in_radians(self) -> "Grid2D":
